@@ -10,7 +10,8 @@ Correspondence (harness/io_drv.cc = real Writer/Reader/save/load, ocaml/io_drive
   hdr     str/bin/ext/array/map of up to 32 MiB / 2^20 elements: header bytes, total length, read back
   bigparam one Parameter of 2^22 floats: real save()/load(), file prefix and length vs. the model
 Translators (re-run on every check): gen_io_consts.py -> Gen/IoConsts.v, gen_io_headers.py -> Gen/IoHeaders.v
-(every header byte expression / guard of writer.h, every type-byte test / byte assembly of reader.h);
+(every header byte expression / guard of writer.h, every type-byte test / byte assembly of reader.h) and
+Gen/IoReaderChecks.v (the bodies of Reader::check_eof / read / check_type, the functions that touch the stream);
 when their theorems fail, header_search() looks for a concrete size / value on which the real Writer
 or Reader disagrees with the model."""
 import importlib
@@ -212,6 +213,21 @@ def header_search(ctx, hd, impl, model, env):
     return found
 
 
+TIE_FILES = {"Props/Properties_C13_headers.v": "every kind, every size / value below 2^64, every type byte and byte stream (C13_writer_headers_match, C13_reader_headers_match)",
+             "Props/Properties_C13_reader_checks.v": "check_eof / read / check_type / get_uint8 of the source are the model's primitives on every stream (C13_reader_read_is_take, C13_reader_check_type_is_model, ...)"}
+
+
+def proved_for(res):
+    """what THIS run's build of the two tie files established (nothing is claimed for a file that did not compile)"""
+    out = {}
+    for f, what in TIE_FILES.items():
+        vo = os.path.join(pv.COQ, f[:-2] + ".vo")
+        built = f in res.get("files", []) and os.path.exists(vo) and not any(x.startswith(f) for x in res.get("failed", []))
+        out[f] = ("proved on this run: " + what) if (built and res.get("ok")) else \
+                 ("compiled on this run, but another C13 obligation failed: " + what) if built else "NOT proved on this run (%s)" % ", ".join(res.get("failed", []))[:300]
+    return out
+
+
 def run(ctx):
     ctx.level = "proof"
     # (T) regenerate Gen/IoConsts.v from file_format.h / writer.h, then check the theorems
@@ -223,11 +239,24 @@ def run(ctx):
     except Exception as e:  # the source no longer has the shape the translator reads
         gen_ok, gen_msg = False, "translate/gen_io_consts.py: %s" % e
     # (T) every header byte expression / guard of writer.h and every test / byte assembly of reader.h
-    # -> Gen/IoHeaders.v; what is not understood becomes a row the theorems reject (never an exception)
-    hd = importlib.import_module("gen_io_headers").main()
+    # -> Gen/IoHeaders.v, the bodies of check_eof / read / check_type -> Gen/IoReaderChecks.v; what is
+    # not understood becomes a row the theorems reject; an exception of the translator itself is a
+    # violation as well (the Gen files are then those of an earlier run)
+    try:
+        hd = importlib.import_module("gen_io_headers").main()
+    except Exception as e:
+        gen_ok, gen_msg = False, (gen_msg + "; " if gen_msg else "") + "translate/gen_io_headers.py: %s: %s" % (type(e).__name__, e)
+        hd = {"writer": [], "pays": {}, "str_entry": [], "reader": [], "gets": [], "notes": [gen_msg], "writer_unknown": 1, "reader_unknown": 1,
+              "checks": {"check_eof": "KBad", "read": "KBad", "check_type": "KBad", "users": [], "notes": [gen_msg]}}
+    if not gen_ok:      # reported here: no later return may lose it
+        ctx.violation("translator", {"kind": "translator", "message": gen_msg}, False, gen_msg)
     res = ctx.prove()
     impl, model = io.drivers(ctx)
     env = io.impl_env()
+    # streams that can hold corrupted / random 32-bit length fields run under an address-space limit
+    # (as all of C14): such a length is std::bad_alloc, the rejection it is, never an OOM kill
+    env_raw = io.impl_env(damage=True)
+    cov_as = env_raw.get("PV_AS_LIMIT_MB")
     dist = {}
     cov = ctx.cov
     cov["rule"] = ("raw: every scalar type at its extreme values + random, str/bin/ext at every length-class boundary "
@@ -241,7 +270,8 @@ def run(ctx):
     raw = raw_cases(ctx)
     dist["raw"] = sum(1 for c in raw if c.startswith("raw "))
     dist["rawrd"] = sum(1 for c in raw if c.startswith("rawrd "))
-    pv.correspondence(ctx, "io-raw", raw, impl, model, functional=True, impl_env=env)
+    pv.correspondence(ctx, "io-raw", raw, impl, model, functional=True, impl_env=env_raw)
+    ctx.cov["io_raw_address_space_limit_mb"] = cov_as
 
     # ---- 2. real save(): bytes vs model encoder, typed reader, independent grammar
     objs = object_cases(ctx)
@@ -310,8 +340,12 @@ def run(ctx):
     # real code wrote
     if not badl:
         rc, outs = io.run_impl(impl, load_lines, env)
+        if rc != 0 or len(outs) != len(load_lines):
+            ctx.violation("load-oracle-run", {"kind": "driver-crash", "rc": rc, "lines": len(outs), "case": load_lines[min(len(outs), len(load_lines) - 1)][:20000],
+                                              "witness": "io-load-oracle-run", "impl_driver": impl}, rc != 0,
+                          "the real load() stopped on the load cases (rc=%d, %d of %d outputs)" % (rc, len(outs), len(load_lines)))
         by_obj = {}
-        for (oi, tag), ln, o in zip(load_tag, load_lines, outs):
+        for (oi, tag), ln, o in zip(load_tag, load_lines, io.padded(outs, len(load_lines))):
             if tag == "fresh":
                 by_obj.setdefault(oi, []).append((ln, o))
         for oi, lst in by_obj.items():
@@ -327,7 +361,10 @@ def run(ctx):
     ref = [h for i, h in enumerate(cpp_hex) if i % (3 if ctx.quick() else 1) == 0]
     cov["evaluations"] += len(sub)
     dist["save-eigen"] = len(sub)
-    for l, a, b in zip(sub, eig + ["<no output>"] * (len(sub) - len(eig)), ref):
+    if rc != 0:
+        ctx.violation("eigen-run", {"kind": "driver-crash", "rc": rc, "lines": len(eig), "case": sub[min(len(eig), len(sub) - 1)][:4000], "witness": "io-eigen-run"}, True,
+                      "the save cases on devices::Eigen: driver rc=%d after %d of %d outputs" % (rc, len(eig), len(sub)))
+    for l, a, b in zip(sub, io.padded(eig, len(sub)), ref):
         # byte-identical unless the file holds an unordered_map with several entries (same process image: same order)
         if a != b:
             ctx.violation("eigen", {"kind": "backend", "case": l[:4000], "eigen": a[:2000], "naive": b[:2000], "witness": "io-eigen"}, True,
@@ -362,12 +399,14 @@ def run(ctx):
     dist["bigparam"] = len(big)
     pv.correspondence(ctx, "io-bigparam", big, impl, model, functional=True, impl_env=env)
     cov["header_sizes_exercised"] = dict((k, sorted(set(v))) for k, v in hdr_sizes.items())
-    cov["largest_parameter_file_round_trip_floats"] = 1 << 22
+    cov["largest_parameter_file_round_trip_floats"] = max(int(b.split()[1]) for b in big)
     cov["header_rows"] = {"writer_rows": len(hd["writer"]), "writer_payload_forms": len(hd["pays"]) + len(hd["str_entry"]),
                           "reader_rows": len(hd["reader"]), "reader_get_functions": len(hd["gets"]),
                           "not_understood": [r["note"] for r in hd["writer"] + hd["reader"] if r["note"]] + hd["notes"],
                           "unknown_overloads": hd["writer_unknown"] + hd["reader_unknown"],
-                          "proved_for": "every kind, every size / value below 2^64, every type byte and byte stream (theorems C13_writer_headers_match, C13_reader_headers_match)"}
+                          "reader_checks": {k: hd["checks"][k] for k in ("check_eof", "read", "check_type", "users")},
+                          "reader_checks_not_understood": hd["checks"]["notes"],
+                          "proved_for": proved_for(res)}
 
     if not ctx.quick():
         io.coqchk(ctx, ctx.pid)
@@ -385,17 +424,15 @@ def run(ctx):
     ctx.add_samples([raw[5], raw[-1][:200], save_lines[0][:300], save_lines[len(save_lines) // 2][:300], load_lines[0][:300], lay[0][:200]])
     cov["exhaustive"] = False
     cov["translator"] = ("translate/gen_io_consts.py -> coq/Gen/IoConsts.v (regenerated on this run: %s); "
-                         "translate/gen_io_headers.py -> coq/Gen/IoHeaders.v (regenerated on this run: %d writer rows, %d reader rows)"
-                         % ("ok" if gen_ok else gen_msg, len(hd["writer"]), len(hd["reader"])))
+                         "translate/gen_io_headers.py -> coq/Gen/IoHeaders.v (regenerated on this run: %d writer rows, %d reader rows) and coq/Gen/IoReaderChecks.v (3 bodies, %d functions touching the stream)"
+                         % ("ok" if gen_ok else gen_msg, len(hd["writer"]), len(hd["reader"]), len(hd["checks"]["users"])))
     ctx.assumptions += [
-        "Codec.v / FileFormat.v are hand transcriptions of msgpack/{writer,reader}.h, parameter.cc, model.cc, optimizer.cc, optimizer_impl.cc; tied to the code by the correspondence above and, for type bytes / length-class limits / version / data-type tags, by the regenerated Gen/IoConsts.v (theorem consts_match); the headers (guards, byte expressions, shifts, masks, buffer sizes, write counts of every Writer overload; type-byte tests and byte assembly of the Reader) by the regenerated Gen/IoHeaders.v (theorems C13_writer_headers_match / C13_reader_headers_match)",
+        "Codec.v / FileFormat.v are hand transcriptions of msgpack/{writer,reader}.h, parameter.cc, model.cc, optimizer.cc, optimizer_impl.cc; tied to the code by the correspondence above and, for type bytes / length-class limits / version / data-type tags, by the regenerated Gen/IoConsts.v (theorem consts_match); the headers (guards, byte expressions, shifts, masks, buffer sizes, write counts of every Writer overload; type-byte tests and byte assembly of the Reader) by the regenerated Gen/IoHeaders.v (theorems C13_writer_headers_match / C13_reader_headers_match); Reader::check_eof / read / check_type by the regenerated Gen/IoReaderChecks.v (Properties_C13_reader_checks.v) over the model of std::istream in Msgpack/ReaderChecks.v: read(p, n) delivers n bytes or sets eofbit | failbit, get() a byte or sets them, operator! is fail(), nothing is delivered from a failed stream",
         "meaning given to the source's expressions in HeaderRows.v / ReaderRows.v: PRIMITIV_UC(e) keeps the low 8 bits of e; `x >> k` on a signed integer is the arithmetic shift (integers are handled through their two's complement image); `c[i] << s` on a promoted uint8_t has the value c[i] * 2^s; the translator reads the 64-bit branch (PRIMITIV_WORDSIZE_64) textually (no macro expansion other than the check that PRIMITIV_UC / PRIMITIV_ULL are the plain casts); how the payload loops call operator<< / operator>> per element is compared as text only",
         "strings, binaries and containers shorter than 2^32 bytes / elements and tensors below 2^30 elements (beyond that the Writer throws Error or, for containers, writes no header); 64-bit build (PRIMITIV_WORDSIZE_64)",
         "a float is identified with the 32-bit word memcpy gives; moving floats through std::vector<float> / Tensor does not alter NaN payloads on the build target (checked by the correspondence, not modelled)",
         "Parameter objects reachable under two different paths of one Model (shared between submodels) are outside the model; unordered_map iteration order is unspecified: files are compared up to that order only where a map holds more than one entry",
     ]
-    if not gen_ok:
-        ctx.violation("translator", {"kind": "translator", "message": gen_msg}, False, gen_msg)
     if not res["ok"] or not gen_ok:
         found = header_search(ctx, hd, impl, model, env)
         if not res["ok"] and not found:
